@@ -189,6 +189,27 @@ func runLeaderWorld(t *testing.T, p *Plan, want []string, logw io.Writer) *Resul
 			if g.p(0.5) {
 				qc = hotstuff.NewQuorumCert(sig, 0, hotstuff.GetGenesis().Hash())
 			}
+			if g.p(0.3) {
+				// the genesis certificate is valid whatever its signature field says (verification returns early for
+				// the genesis hash), so a Byzantine leader of an early view can put anything there: nobody, or
+				// only itself
+				few := make(crypto.Multi[*crypto.EDDSASignature], 0, 1)
+				signers = nil
+				if g.p(0.5) {
+					pid := hotstuff.ID(g.rng(1, n))
+					few = append(few, crypto.RestoreEDDSASignature([]byte{byte(pid), 0}, pid))
+					signers = []hotstuff.ID{pid}
+				}
+				qc = hotstuff.NewQuorumCert(few, 0, hotstuff.GetGenesis().Hash())
+				st.Faults["genesis-certificate-with-odd-signers"]++
+			}
+			// such a block can only be on a committed chain if replicas accept its certificate: ask the
+			// repository's own verification (which does not look at the signature bytes of a genesis certificate)
+			if qc.Signature() != nil && !genesisQCAccepted(n, qc) {
+				st.Probes["c16-signed-genesis-certificate-rejected"]++
+				qc = hotstuff.NewQuorumCert(nil, 0, hotstuff.GetGenesis().Hash())
+				signers = nil
+			}
 		} else {
 			qc = hotstuff.NewQuorumCert(sig, parent.b.View(), parent.b.Hash())
 		}
@@ -320,4 +341,26 @@ func runLeaderWorld(t *testing.T, p *Plan, want []string, logw io.Writer) *Resul
 	res.Summary = fmt.Sprintf("leader world %s n=%d f=%d chain=%d gap=%d%% L=%d", p.Leader, n, f, k("blocks"), k("gapPct"), L)
 	res.WallMs = float64(time.Since(start).Microseconds()) / 1000
 	return res
+}
+
+
+// genesisQCAccepted: does the repository's certificate verification accept this certificate for the genesis block?
+func genesisQCAccepted(n int, qc hotstuff.QuorumCert) bool {
+	cfg := core.NewRuntimeConfig(1, nil)
+	for i := 1; i <= n; i++ {
+		cfg.AddReplica(&hotstuff.ReplicaInfo{ID: hotstuff.ID(i)})
+	}
+	lg := &simLogger{nd: &Node{w: &World{stats: newStats()}}}
+	el := eventloop.New(lg, 16)
+	bc := blockchain.New(el, lg, &forestSender{avail: map[hotstuff.Hash]*hotstuff.Block{}})
+	base, err := crypto.New(cfg, crypto.NameEDDSA)
+	if err != nil {
+		return false
+	}
+	ok := false
+	func() {
+		defer func() { _ = recover() }()
+		ok = cert.NewAuthority(cfg, bc, base).VerifyQuorumCert(qc) == nil
+	}()
+	return ok
 }
